@@ -73,6 +73,7 @@ pub open spec fn labels_wf(l: Labels) -> bool {
                'res matches Ok(r) ==> final(self).labels@.contains_key(start_pc) && final(self).labels@.contains_key((start_pc + length) as u16) '
                '&& r.start == final(self).labels@[start_pc] && r.end == final(self).labels@[(start_pc + length) as u16]'),
              C('C01.rlabels.range.frame', 'forall|k: u16| #![trigger final(self).labels@.contains_key(k)] #![trigger old(self).labels@.contains_key(k)] old(self).labels@.contains_key(k) ==> final(self).labels@.contains_key(k) && final(self).labels@[k] == old(self).labels@[k]'),
+             C('C01.rlabels.range.len', 'final(self).code_length == old(self).code_length'),
              C('C01.rlabels.range.wf', 'labels_wf(*final(self))'),
          ])
     u.fn(F, 'Labels::get', ret='r', **kw,
